@@ -13,8 +13,8 @@ class Check(RuntimeCheck):
     def rule(self):
         return ("exhaustive: every list of 1..3 unordered patterns of one method (some_call/each_call/stub in every "
                 "declaration order) with every accept-mask over a 3-value argument domain, every history of <=3 calls "
-                "(quick) / <=4 (thorough); random: clause sets over up to 6 methods with nested tuples, chains, clones. "
-                "non-trivial = some call whose arguments are accepted by >=2 patterns of the called method, or by none")
+                "(quick) / <=4 (thorough); random: clause sets over up to 6 methods with nested tuples, chains, clones; the exhaustive part and a random batch also on unimock built without std "
+                "(spin-lock + critical-section). non-trivial = some call whose arguments are accepted by >=2 patterns of the called method, or by none")
 
     def exhaustive(self, tier):
         # all mask triples over a 3-value domain, pattern kinds cycling, every history up to L
@@ -52,6 +52,50 @@ class Check(RuntimeCheck):
             ('un', Profile(nested_args=True, nomatcher_chance=(1, 12), **base), n // 2),
             ('mix', Profile(nested_args=True, ordered_weight=1, unordered_weight=3, stub_weight=1, clones=2, end='mixed'), n // 2),
         ]
+
+    def extra(self, rep, tier, seed):
+        """configuration B: the same scenarios on unimock built WITHOUT `std` (spin-lock + critical-section), call outcomes
+        and counters compared with the model (teardown differs by design without std and is not part of C01)"""
+        import os, subprocess
+        from .. import engine, run, canon, gen_runtime
+        from ..rtcheck import proj_outcomes_and_counts
+        hb = os.path.join(engine.VERIF, 'harness_nostd')
+        lock = os.path.join(hb, 'Cargo.lock')
+        if not os.path.exists(lock):
+            import shutil; shutil.copy('/repo/Cargo.lock', lock)
+        rc, out, err = engine.sh(['cargo', 'build', '--offline', '--bin', 'replay'], cwd=hb)
+        if rc != 0:
+            path = engine.write_replay(self.prop, 'build', (out + err)[-6000:], ["the harness no longer builds against /repo without the std feature (spin-lock + critical-section)"])
+            rep.violation(path, "no_std configuration of the harness does not build against /repo", no_input=True)
+            return
+        exe = os.path.join(hb, 'target', 'debug', 'replay')
+        batches = [t for _, t in self.exhaustive(tier)]
+        n = 800 if tier == 'quick' else 20000
+        batches.append(gen_runtime.gen_batch(seed * 1000003 + 77, Profile(ordered_weight=0, unordered_weight=4, stub_weight=2, max_terms=6, end='drop'), n, prefix='nb_'))
+        total = 0; bad = []
+        for text in batches:
+            p = subprocess.run([exe], input=text, capture_output=True, text=True, timeout=1200)
+            if p.returncode != 0:
+                path = engine.write_replay(self.prop, 'toolerror', text[:5000], [f"no_std replay exited {p.returncode}: {p.stderr[-600:]}"])
+                rep.violation(path, f"no_std replay crashed ({p.returncode})", no_input=True)
+                return
+            real_raw, order = canon.split_scenarios(p.stdout)
+            model_raw, _ = canon.split_scenarios(run.run_model(text))
+            texts = scn.split_text(text)
+            for nme in order:
+                total += 1
+                r = [canon.normalise(x) for x in canon.canon_scenario(real_raw[nme])]
+                m = [canon.normalise(canon.canon_model_line(x)) for x in model_raw.get(nme, [])]
+                keep = lambda ls: [l for l in proj_outcomes_and_counts(ls) if not l.startswith(('teardown', 'exit'))]
+                if keep(r) != keep(m):
+                    d = next(((a, b) for a, b in zip(keep(r), keep(m)) if a != b), ('len', 'len'))
+                    bad.append((nme, d, texts.get(nme, '')))
+        for (nme, d, text) in bad[:2]:
+            path = engine.write_replay(self.prop, 'spec', text, [f"configuration B (unimock without std: spin-lock + critical-section): real `{d[0]}` vs required `{d[1]}`",
+                                                                  "replay: /verif/harness_nostd/target/debug/replay < this file"])
+            rep.violation(path, f"no_std build deviates on scenario {nme}: real `{d[0]}` vs required `{d[1]}`"[:400])
+        rep.coverage['no_std_configuration'] = {'scenarios': total, 'features': 'spin-lock,critical-section (no std)'}
+        rep.coverage['evaluations'] = rep.coverage.get('evaluations', 0) + total
 
     def nontrivial(self, name, text, real_lines):
         # scenario has a method with >= 2 unordered patterns and at least one call
